@@ -41,7 +41,9 @@ Pool == <<
   Txt(EndWith(BudgetToks(<<>>), "i") \o TermToks(B) \o T(F.punct["Goal"], "n")),                    \* 16 task with empty budget
   <<"x">> \o CopulaHead,                                                                         \* 17 a name that ends with the first character(s) of a copula
   Txt(TermToks([k |-> "SetIntension", s |-> {W("ab")}])),                                         \* 18 a longer text whose tail can complete a copula after input 17
-  <<"x", "y">> \o CopulaHead \o CopulaTail                                                       \* 19 ... and one that ends with a whole copula
+  <<"x", "y">> \o CopulaHead \o CopulaTail,                                                      \* 19 ... and one that ends with a whole copula
+  Format(AsSentence(Sent(B, "Judgement", [k |-> "Eternal"], <<>>))) \o <<"\r">>,                  \* 20 a sentence followed by a carriage return
+  <<"\t">> \o Format(AsTerm(A)) \o <<"\n">>                                                      \* 21 a term wrapped in tab / newline
 >>
 
 Init == hist = <<>> /\ slots = EmptyMid /\ outs = <<>>
